@@ -389,6 +389,15 @@ class Fn:
         for s, labels, tb in self.guards.get(bi, []):
             c = self.cond_of(s, labels)
             out.append(c)
+            if c['kind'] == 'variant' and len(c['variants']) == 1:
+                a_ = strip_refs(c['a'])
+                if a_[0] == 'call' and short(a_[1]) == 'then_some' and len(a_[2]) == 2 and c['variants'][0] in ('Some', 'None'):
+                    # `cond.then_some(v)` is Some exactly when cond holds
+                    out.append(self.bool_cond(strip_refs(a_[2][0]), c['variants'][0] == 'Some', ('then_some', s), c.get('line')))
+                elif a_[0] == 'call' and short(a_[1]) == 'ok' and len(a_[2]) == 1 and 'result::Result' in a_[1] and c['variants'][0] in ('Some', 'None'):
+                    # `r.ok()` is Some exactly when r is Ok
+                    out.append({'kind': 'variant', 'a': a_[2][0], 'variants': ['Ok' if c['variants'][0] == 'Some' else 'Err'], 'switch': ('ok', s), 'labels': [c['variants'][0]],
+                                'line': c.get('line'), 'raw': a_, 'derived': True})
             if c['kind'] == 'variant' and len(c['variants']) == 1 and len(seen) < 6:
                 blocks = self._variant_def_blocks(c['a'], c['variants'][0])
                 if blocks:
@@ -443,7 +452,16 @@ class Fn:
                     if rv['kind'].get('variant') in want:
                         out.append((d[1], None))
                 elif rv['r'] == 'use' and rv['a'].get('o') in ('copy', 'move') and not rv['a']['pl']['p']:
-                    todo.append(rv['a']['pl']['l'])
+                    src = rv['a']['pl']['l']
+                    # `x = move y` inside an arm that has just matched y as another variant cannot carry this one
+                    contradicted = False
+                    for s_, labels_, tb_ in self.guards.get(d[1], []):
+                        c_ = self.cond_of(s_, labels_)
+                        a2_ = strip_refs(c_['a']) if c_['kind'] == 'variant' else None
+                        if a2_ is not None and ((a2_[0] == 'var' and a2_[1] == src) or a2_ == strip_refs(self.local_expr(src))) and not (set(c_['variants']) & want):
+                            contradicted = True
+                    if not contradicted:
+                        todo.append(src)
                 else:
                     return None
         return out or None
@@ -486,6 +504,22 @@ class Fn:
             rec.update(kind='bool', a=e, truth=truth)
             return rec
         rec.update(kind='value', a=d, values=sorted(labels))
+        return rec
+
+    def bool_cond(self, e, truth, key, line=None):
+        """guard record saying that boolean expression e has the given truth (derived guards)"""
+        rec = {'switch': key, 'line': line, 'labels': [str(truth)], 'raw': e, 'derived': True}
+        while e[0] == 'un' and e[1] == 'Not':
+            e = e[2]
+            truth = not truth
+        cmpk = cmp_of(e)
+        if cmpk:
+            if cmpk[0] == 'Ne':
+                cmpk = ('Eq', cmpk[1], cmpk[2])
+                truth = not truth
+            rec.update(kind=cmpk[0], a=cmpk[1], b=cmpk[2], truth=truth)
+        else:
+            rec.update(kind='bool', a=e, truth=truth)
         return rec
 
     # -- disjunctive path contexts --------------------------------------------------------------
@@ -560,6 +594,8 @@ class Fn:
                     pass   # (value, overflow-flag).0 of a checked integer operation is the value
                 elif e[0] == 'agg' and e[1] in ('tuple',) and p['i'] < len(e[2]):
                     e = e[2][p['i']]
+                elif e[0] == 'downcast' and e[2] == 'Some' and e[1][0] == 'call' and short(e[1][1]) == 'then_some' and len(e[1][2]) == 2 and p['i'] == 0:
+                    e = e[1][2][1]      # (cond.then_some(v) as Some).0 is v
                 elif e[0] == 'downcast' and e[1][0] == 'agg' and e[1][1].startswith('adt:') and e[1][1].endswith('::' + e[2]) and p['i'] < len(e[1][2]):
                     e = e[1][2][p['i']]     # (Variant{x, ..} as Variant).i is x
                 elif e[0] == 'agg' and e[1].startswith('closure:'):
